@@ -30,19 +30,37 @@ pub fn chains() -> Vec<Vec<u8>> {
     out
 }
 
+thread_local! {
+    /// Some((binary, scratch dir)) while histories are run through the real binary: every run is
+    /// `chiritori --filename=F --output=F` (the periodic job rewriting the file in place), targets
+    /// split between a config file and flags.
+    static VIA_CLI: std::cell::RefCell<Option<(String, String)>> = const { std::cell::RefCell::new(None) };
+}
+
 fn clean_at(text: &str, sp: &Sp, step: u8) -> Result<String, String> {
     // the clock reading varies from run to run within the same step (fractional seconds, other zone)
-    api::call_clean(text, sp, &step_cfg_var(step, hash_str(text)))
+    let cfg = step_cfg_var(step, hash_str(text));
+    if let Some((bin, dir)) = VIA_CLI.with(|v| v.borrow().clone()) {
+        // variant: file in, in place out; targets by flags / file / both, rotating with the text
+        let variant = 4 + 6 * (hash_str(text) % 3);
+        return match super::cli::clean_via_cli(&bin, &dir, "h", text, sp, &cfg, variant) {
+            Ok(o) => Ok(o),
+            Err(super::cli::CliErr::Bad(m)) => Err(format!("[through the binary] {m}")),
+            Err(super::cli::CliErr::Env(m)) => Err(format!("ENV: {m}")),
+        };
+    }
+    api::call_clean(text, sp, &cfg)
         .map(|(o, _)| o)
         .map_err(|p| format!("clean panicked: {} @ {}", trunc(&p.msg, 60), api::short_loc(&p.loc)))
 }
 
 fn judge_history(ctx: &mut Ctx, rd: &Rendered, sp: &Sp, chain: &[u8], gen_name: &str, full: bool) {
     let last = *chain.last().unwrap();
-    ctx.before_exec(|| json!({"kind": "hist", "doc": rd.json(), "sp": sp.json(), "chain": chain}));
+    let via_cli = VIA_CLI.with(|v| v.borrow().is_some());
+    ctx.before_exec(|| json!({"kind": "hist", "doc": rd.json(), "sp": sp.json(), "chain": chain, "via_cli": via_cli}));
     ctx.eval();
     ctx.count(&format!("gen:{gen_name}"));
-    let rp = || json!({"kind": "hist", "doc": rd.json(), "sp": sp.json(), "chain": chain});
+    let rp = || json!({"kind": "hist", "doc": rd.json(), "sp": sp.json(), "chain": chain, "via_cli": via_cli});
     let mut log: Vec<Value> = vec![];
     let mut x = rd.text.clone();
     for s in chain {
@@ -50,6 +68,10 @@ fn judge_history(ctx: &mut Ctx, rd: &Rendered, sp: &Sp, chain: &[u8], gen_name: 
             Ok(o) => {
                 log.push(json!({"step": s, "in_hash": format!("{:016x}", hash_str(&x)), "out_hash": format!("{:016x}", hash_str(&o))}));
                 x = o;
+            }
+            Err(m) if m.starts_with("ENV: ") => {
+                ctx.inconclusive(&m);
+                return;
             }
             Err(m) => {
                 ctx.violation(gen_name, format!("{m} in step {s} of chain {:?}", chain), rp());
@@ -70,6 +92,10 @@ fn judge_history(ctx: &mut Ctx, rd: &Rendered, sp: &Sp, chain: &[u8], gen_name: 
                 return;
             }
         }
+        Err(m) if m.starts_with("ENV: ") => {
+            ctx.inconclusive(&m);
+            return;
+        }
         Err(m) => {
             ctx.violation(gen_name, m, rp());
             return;
@@ -78,6 +104,10 @@ fn judge_history(ctx: &mut Ctx, rd: &Rendered, sp: &Sp, chain: &[u8], gen_name: 
     // composition: stepwise == direct up to whitespace
     let direct = match clean_at(&rd.text, sp, last) {
         Ok(o) => o,
+        Err(m) if m.starts_with("ENV: ") => {
+            ctx.inconclusive(&m);
+            return;
+        }
         Err(m) => {
             ctx.violation(gen_name, m, rp());
             return;
@@ -162,6 +192,41 @@ pub fn run(ctx: &mut Ctx) {
     let (seed, shard, n) = (ctx.seed, ctx.shard, ctx.nshards);
     let all = chains();
     ctx.note("chains", json!(all.len()));
+    // the periodic job as it is really run: the same histories through the binary, rewriting the
+    // file in place, target names split between a config file and flags
+    {
+        let bin = std::env::var("CV_CLI_BIN").unwrap_or_default();
+        if !bin.is_empty() && std::path::Path::new(&bin).exists() {
+            let dir = format!("{}/c19-{shard}", std::env::var("CV_TMP").unwrap_or_else(|_| "/verif/build/tmp".into()));
+            if std::fs::create_dir_all(&dir).is_ok() {
+                VIA_CLI.with(|v| *v.borrow_mut() = Some((bin.clone(), dir.clone())));
+                let t_end = if quick { 0.30 } else { 0.12 };
+                for i in (shard..40_000u64).step_by(n as usize) {
+                    if ctx.past(t_end) {
+                        break;
+                    }
+                    let mut r = Rng::for_case(seed, 104, i);
+                    let sp = if i % 2 == 0 { Sp::new("<!-- <", "> -->", "time-limited", "removal-marker") } else { default_sp() };
+                    let mut gc = GenCfg::block(*r.pick(&UNITS));
+                    gc.words = gen::words_for(&[&sp]);
+                    gc.allow_inline = i % 4 == 0;
+                    gc.max_depth = 3;
+                    gc.holds_of_10 = 5;
+                    let mut d = gen_block_doc(&mut r, &gc);
+                    spread_levels(&mut d, &mut r);
+                    let rd = render(&d, &sp);
+                    if let Ok(full) = eligible(&rd, &sp) {
+                        let c = &all[r.below(all.len())];
+                        judge_history(ctx, &rd, &sp, c, "through-the-binary", full);
+                    }
+                }
+                VIA_CLI.with(|v| *v.borrow_mut() = None);
+                let _ = std::fs::remove_dir_all(&dir);
+            }
+        } else {
+            ctx.count("cli-leg-unavailable (CV_CLI_BIN not built)");
+        }
+    }
     let total: u64 = if quick { 40_000 } else { 800_000 };
     for i in (shard..total).step_by(n as usize) {
         if ctx.out_of_time() {
@@ -311,6 +376,13 @@ pub fn replay(ctx: &mut Ctx, v: &Value) -> Result<(), String> {
         return Err("empty chain".into());
     }
     let full = eligible(&rd, &sp).unwrap_or(false);
+    if v.get("via_cli").and_then(|x| x.as_bool()) == Some(true) {
+        let bin = std::env::var("CV_CLI_BIN").map_err(|_| "CV_CLI_BIN not set")?;
+        let dir = format!("{}/c19-replay", std::env::var("CV_TMP").unwrap_or_else(|_| "/verif/build/tmp".into()));
+        std::fs::create_dir_all(&dir).map_err(|e| e.to_string())?;
+        VIA_CLI.with(|c| *c.borrow_mut() = Some((bin, dir)));
+    }
     judge_history(ctx, &rd, &sp, &chain, "replay", full);
+    VIA_CLI.with(|c| *c.borrow_mut() = None);
     Ok(())
 }
